@@ -16,26 +16,33 @@ RULE = ('random 1-3-D sources (axis lengths 0-12) labelled injectively in C orde
         'and None), boolean mask (incl. all-False / all-True), strictly increasing list chosen dense or sparse w.r.t. '
         'the 20% rule, and a malformed stream (unsorted / repeated / negative / out-of-range lists); source dtypes '
         'bool, int64, float32/64, complex64/128 and byte strings |S1..|S6 with elements that make every narrowing '
-        'cast visible (full-width strings, non-zero imaginary parts, values other than 0/1); 0-3 transforms '
-        '(elementwise a*x+b cast to any numeric dtype incl. bool, end-axis drop/add); LazyIndexer over numpy arrays '
-        'and h5py datasets, ConcatenatedLazyIndexer over 1-4 parts (some empty, parts with their own first stage and '
-        'their own dtype: one common dtype, byte strings of different widths in any order, or kinds that katdal '
-        'rejects) plus a fixed sweep of (part dtypes x head kind x dtype-changing transform); a case is one '
-        '(source kind, shape(s), dtype(s), stage 1, transforms, stage 2); values, shape AND dtype of every answer are '
-        'compared; non-trivial when the implementation returns at least one element through a non-full selection or '
-        'exercises the rejection clause; distinct by canonical case')
+        'cast visible; chains of 0-6 transforms: elementwise a*x+b cast to any numeric dtype incl. bool (up to 3 '
+        'dtype-declaring ones), end-axis drop/add, and transforms that USE their keep argument (keepdims as in '
+        'h5datav2/v3, an auxiliary array of the first-stage shape indexed with the same keep as in extract_weights); '
+        'LazyIndexer over numpy arrays and h5py datasets, ConcatenatedLazyIndexer over 1-4 parts (LazyIndexers or raw '
+        'arrays, some empty, parts with their own first stage and their own dtype: one common dtype, byte strings of '
+        'different widths in any order, or kinds that katdal rejects; 12% of the common-dtype cases give the parts '
+        'their own elementwise dtype-changing chain) plus a fixed sweep of (part dtypes x head kind x dtype-changing '
+        'transform); API forms: index / first stage as a tuple or bare, Python or numpy integers, lists or arrays; '
+        'every indexer is asked three times (request, self[:], the request again) and its shape / dtype / len() are '
+        'read before and after; a case is one (source kind, shape(s), dtype(s), stage 1, transforms, stage 2, API form); '
+        'values, shape AND dtype of every answer are compared; non-trivial when the implementation returns at least '
+        'one element through a non-full selection or exercises the rejection clause; distinct by canonical case')
 ASSUMPTIONS = [
     'boolean masks have the length of their axis (other lengths are outside the model)',
     'first-stage integer keeps its axis with length 1 (LazyIndexer convention self[:].shape); the spec uses the same convention',
     'index tuples are padded / truncated to the number of axes (documented LazyIndexer behaviour) in model and spec',
-    'transforms ignore the `keep` argument; concatenated parts carry no transforms of their own',
-    'N-d assembly (np.mgrid loop over segment products, numpy block assignment) is modelled as the outer product of '
-    'per-axis gathers: tied only by this correspondence',
+    'transforms receive the second-stage index as the user wrote it (LazyTransform documentation); the keep-aware '
+    'transforms of the harness are replicas of katdal\'s h5datav2/v3 closures (which cannot be imported on their own)',
+    'concatenated parts with transform chains of their own are not in the model: judged against numpy only (no tie)',
+    'np.empty is modelled as a buffer of arbitrary content (theorems quantify over it; the wire fills it with a sentinel)',
     'h5py datasets reject negative slice steps: such cases are compared against the spec only (no tie)',
     'float evaluation of 0.2 * dim_len is modelled exactly as dim_len / 5',
     'parts without rows are dropped by the indexer at construction: the spec ignores their tail shape and dtype too',
     'parts whose dtypes are neither all equal nor all byte strings are rejected at construction '
     '(ConcatenationError, documented): correct rejection; only the tie (model rejects as well) is checked there',
+    'InvalidTransform at construction is a correct rejection only for a chain that changes a preserved dimension or '
+    'drops every dimension (documented restriction); on a valid chain it is reported as init_raises',
     'a 0-d byte-string answer is a numpy scalar whose dtype is the width of its value: width not compared for 0-d',
     'elements are integral / have integral real and imaginary parts, so every numeric cast is exact in the model',
 ]
@@ -86,11 +93,55 @@ def py_ix(ix, as_array=False):
 def enc_tr(t):
     if t[0] == 'map':
         return [0, t[1], t[2], [] if t[3] is None else [t[3]]]
+    if t[0] == 'keepdims':
+        return [3]
+    if t[0] == 'aux':
+        return [4, t[1]]
     return [1] if t[0] == 'drop' else [2]
 
 
-def py_tr(t):
+def canon_item(k):
+    """one item of the `keep` tuple a transform receives -> the harness's index item"""
+    if isinstance(k, slice):
+        return ('s', k.start, k.stop, k.step)
+    if np.isscalar(k):
+        return ('i', int(k))
+    a = np.asarray(k)
+    if a.dtype == bool:
+        return ('m', [int(b) for b in a.tolist()])
+    return ('l', [int(v) for v in a.tolist()])
+
+
+def keepdims_fn(dims):
+    """katdal's h5datav2/v3 _force_full_dim: scalar-indexed axes come back with length 1"""
+    def f(data, keep):
+        keep = tuple(keep)[:dims] + (slice(None),) * (dims - len(keep))
+        return np.asarray(data)[tuple((np.newaxis if np.isscalar(k) else slice(None)) for k in keep)]
+    return f
+
+
+def aux_fn(c, init):
+    """like katdal's h5datav3 extract_weights: the data combined with ANOTHER array of the first-stage shape indexed
+    with the same `keep` (here data + c * aux[keep], aux = C-order labels)"""
+    aux = np.arange(int(np.prod(init)) if len(init) else 1).reshape(init)
+
+    def f(data, keep):
+        data = np.asarray(data)
+        if data.dtype.kind in 'bS':
+            raise TypeError('aux transform needs numbers')
+        sel = np_oindex(aux, [canon_item(k) for k in keep])
+        if sel.shape != data.shape:
+            raise ValueError('aux transform: shape %s != %s' % (sel.shape, data.shape))
+        return (data + c * sel).astype(data.dtype)
+    return f
+
+
+def py_tr(t, init=None):
     from katdal.lazy_indexer import LazyTransform
+    if t[0] == 'keepdims':
+        return LazyTransform('keepdims', keepdims_fn(len(init)))
+    if t[0] == 'aux':
+        return LazyTransform('aux', aux_fn(t[1], list(init)))
     if t[0] == 'map':
         a, b, dt = t[1], t[2], t[3]
         if dt is None:
@@ -165,9 +216,14 @@ def np_oindex(x, ixs, keepdims=False):
     return out
 
 
-def np_transforms(ts, data, dtype):
+def np_transforms(ts, data, dtype, keep=(), init=()):
+    pykeep = tuple(py_ix(ix, True) for ix in keep)
     for t in ts:
-        if t[0] == 'map':
+        if t[0] == 'keepdims':
+            data = keepdims_fn(len(init))(data, pykeep)
+        elif t[0] == 'aux':
+            data = aux_fn(t[1], list(init))(data, pykeep)
+        elif t[0] == 'map':
             src = data.dtype
             data = (data * t[1] + t[2]).astype(DT[t[3]] if t[3] is not None else src)
         elif t[0] == 'drop':
@@ -238,14 +294,49 @@ def gen_ix(rng, n, malformed=0.0, kinds=None):
 
 def gen_ts(rng, allow_drop=True, maps=True):
     ts = []
-    for _ in range(rng.choice([0, 0, 0, 1, 1, 2]) if maps else 0):
+    for _ in range(rng.choice([0, 0, 0, 1, 1, 2, 3]) if maps else 0):
         a, b, dt = rng.choice([1, 2, 3, -1]), rng.choice([0, 1, 5]), rng.choice([None, None, 1, 2, 0, 3, 3, 4, 5])
         if dt == 3 and rng.random() < 0.6:
             b = -a            # a*x+b vanishes at x = 1 only: a cast to bool before and after the map differ
         ts.append(('map', a, b, dt))
     if allow_drop and rng.random() < 0.3:
         ts.insert(rng.randint(0, len(ts)), (rng.choice(['drop', 'add']),))
+    # transforms that USE their `keep` argument (katdal's keepdims and weights transforms)
+    if rng.random() < 0.22:
+        ts.insert(rng.randint(0, len(ts)), ('keepdims',))
+    if maps and rng.random() < 0.22:
+        ts.insert(0 if rng.random() < 0.8 else rng.randint(0, len(ts)), ('aux', rng.choice([100, -3, 7])))
     return ts
+
+
+KEEP_AWARE = ('keepdims', 'aux')
+
+
+def first_stage_shape(case):
+    """shape of source[first stage] (of the concatenation for a concatenated indexer), None if it does not exist"""
+    try:
+        if case['kind'] == 'lazy':
+            return list(np_oindex(labels(case['shape'], 0, 0), case['keep'], keepdims=True).shape)
+        fulls = [np_transforms([tuple(t) for t in p.get('ts', []) if t[0] != 'map'],
+                               np_oindex(labels(p['shape'], 0, 0), p['keep'], keepdims=True), None) for p in case['parts']]
+        ne = [f for f in fulls if f.shape[0]] or fulls[:1]
+        if len({f.shape[1:] for f in ne}) != 1:
+            return None
+        return [sum(f.shape[0] for f in ne)] + list(ne[0].shape[1:])
+    except Exception:
+        return None
+
+
+def finish_case(case):
+    """keep-aware transforms are told the first-stage shape when they are built (as katdal's closures are); a case
+    whose first stage does not exist carries none"""
+    if any(t[0] in KEEP_AWARE for t in case['ts']):
+        init = first_stage_shape(case)
+        if init is None or (case['kind'] == 'concat' and any(part_dt(case, p) > 100 for p in case['parts'])):
+            case['ts'] = [t for t in case['ts'] if t[0] not in KEEP_AWARE]
+        else:
+            case['init'] = init
+    return case
 
 
 def gen_lazy(rng, malformed):
@@ -268,8 +359,13 @@ def gen_lazy(rng, malformed):
     if len(k2) > nd:
         k2 = k2[:nd] + [('i', 0)]
     dt = rng.choice([0, 0, 1, 2, 3, 4, 5] + BYTES[:3])
-    return dict(kind='lazy', src=rng.choice(['numpy', 'h5py']), shape=shape, keep=k1,
+    case = dict(kind='lazy', src=rng.choice(['numpy', 'h5py']), shape=shape, keep=k1,
                 ts=gen_ts(rng, maps=dt < 100 or rng.random() < 0.1), dt=dt, index=k2)
+    if rng.random() < 0.25:
+        case['bare'] = True        # a one-item index / first stage is passed without the tuple around it
+    if rng.random() < 0.25:
+        case['npint'] = True       # integers are numpy integers
+    return finish_case(case)
 
 
 def gen_concat(rng, malformed):
@@ -311,8 +407,29 @@ def gen_concat(rng, malformed):
         dts = [rng.choice(NUMERIC) for _ in parts]
     for p, d in zip(parts, dts):
         p['dt'] = d
-    return dict(kind='concat', parts=parts, ts=gen_ts(rng, maps=dts[0] < 100 or rng.random() < 0.1), dt=dts[0],
+    for p in parts:
+        if not p['keep'] and rng.random() < 0.3:
+            p['raw'] = True        # a raw array instead of a LazyIndexer (wrapped by ConcatenatedLazyIndexer itself)
+    if dts[0] < 100 and len(set(dts)) == 1 and rng.random() < 0.12:
+        # parts that carry their OWN elementwise (dtype-changing) chain, the same for all, as the vis / weights / flags
+        # indexers of concatenated data sets do: outside the model, judged against numpy only
+        pts = [('map', rng.choice([1, 2, -1]), rng.choice([0, 1]), rng.choice([None, 0, 1, 2, 4, 5]))
+               for _ in range(rng.randint(1, 2))]
+        if tail and rng.random() < 0.5:
+            # like extract_vis of the v2 / v3 files: the part drops its last dataset axis, so its shape property
+            # differs from its first-stage shape
+            pts.insert(rng.randint(0, len(pts)), ('drop',))
+            index = index[:len(tail)]
+        for p in parts:
+            p['ts'] = list(pts)
+            p['raw'] = False
+    case = dict(kind='concat', parts=parts, ts=gen_ts(rng, maps=dts[0] < 100 or rng.random() < 0.1), dt=dts[0],
                 index=index)
+    if rng.random() < 0.25:
+        case['bare'] = True
+    if rng.random() < 0.25:
+        case['npint'] = True
+    return finish_case(case)
 
 # ----------------------------------------------------------------------------- implementation drivers
 
@@ -382,26 +499,39 @@ def run_impl(case, pool, log=None):
     from katdal.lazy_indexer import LazyIndexer
     from katdal.concatdata import ConcatenatedLazyIndexer
     res = {}
+
+    def tup(items, arr):
+        """index tuple as the user writes it: numpy integers, a single item without the tuple"""
+        vals = [py_ix(ix, arr) for ix in items]
+        if case.get('npint'):
+            vals = [np.int64(v) if isinstance(v, int) else v for v in vals]
+        return vals[0] if case.get('bare') and len(vals) == 1 else tuple(vals)
     try:
-        ts = [py_tr(t) for t in case['ts']]
+        ts = [py_tr(t, case.get('init')) for t in case['ts']]
         if case['kind'] == 'lazy':
             data = labels(case['shape'], 0, case['dt'])
             src = pool.dataset(data) if case.get('src') == 'h5py' else data
             if log is not None:
                 src = Recorder(src, log)
-            li = LazyIndexer(src, keep=tuple(py_ix(ix, True) for ix in case['keep']), transforms=ts)
+            if case['keep'] or not case.get('bare'):
+                li = LazyIndexer(src, keep=tup(case['keep'], True), transforms=ts)
+            else:
+                li = LazyIndexer(src, transforms=ts)       # default first stage
         else:
             bases = part_bases(case['parts'])
-            subs = [LazyIndexer(labels(p['shape'], b, part_dt(case, p)), keep=tuple(py_ix(ix, True) for ix in p['keep']))
+            subs = [labels(p['shape'], b, part_dt(case, p)) if p.get('raw') and not p['keep'] else
+                    LazyIndexer(labels(p['shape'], b, part_dt(case, p)), keep=tuple(py_ix(ix, True) for ix in p['keep']),
+                                transforms=[py_tr(tuple(t)) for t in p.get('ts', [])])
                     for p, b in zip(case['parts'], bases)]
             li = ConcatenatedLazyIndexer(subs, transforms=ts)
         res['shape'] = list(li.shape)
         res['dtype'] = dt_code(li.dtype)
+        res['len'] = int(len(li))
     except Exception as e:
         res['out'] = ['err', type(e).__name__ + ':init']
         return res
+    idx = tup(case['index'], case.get('arr_index', False)) if case['index'] or not case.get('bare') else slice(None)
     try:
-        idx = tuple(py_ix(ix, case.get('arr_index', False)) for ix in case['index'])
         res['out'] = canon(li[idx])
     except Exception as e:
         res['out'] = ['err', type(e).__name__]
@@ -409,6 +539,15 @@ def run_impl(case, pool, log=None):
         res['full'] = canon(li[:])
     except Exception as e:
         res['full'] = ['err', type(e).__name__]
+    # history: the same request after other requests gives the same answer, and the properties did not move
+    try:
+        res['again'] = canon(li[idx])
+    except Exception as e:
+        res['again'] = ['err', type(e).__name__]
+    try:
+        res['props_after'] = [list(li.shape), dt_code(li.dtype), int(len(li))]
+    except Exception as e:
+        res['props_after'] = ['err', type(e).__name__]
     return res
 
 
@@ -419,21 +558,23 @@ def run_numpy(case):
             a1 = np_oindex(labels(case['shape'], 0, case['dt']), case['keep'], keepdims=True)
         else:
             bases = part_bases(case['parts'])
-            fulls = [np_oindex(labels(p['shape'], b, part_dt(case, p)), p['keep'], keepdims=True)
+            fulls = [np_transforms([tuple(t) for t in p.get('ts', [])],
+                                   np_oindex(labels(p['shape'], b, part_dt(case, p)), p['keep'], keepdims=True), None)
                      for p, b in zip(case['parts'], bases)]
             ne = [f for f in fulls if f.shape[0]] or fulls[:1]
             a1 = np.concatenate(ne)
-        return canon(np_transforms(case['ts'], np_oindex(a1, case['index']), case['dt']))
+        return canon(np_transforms(case['ts'], np_oindex(a1, case['index']), case['dt'], case['index'], list(a1.shape)))
     except Exception as e:
         return ['err']
 
 
 def wire_case(case):
+    """wire 53 / 54: the indexers with the keep-aware transform layer -> [model, spec, shape, dtype, len]"""
     if case['kind'] == 'lazy':
-        return [5, [case['shape'], [enc_ix(i) for i in case['keep']], [enc_tr(t) for t in case['ts']], case['dt'],
+        return [53, [case['shape'], [enc_ix(i) for i in case['keep']], [enc_tr(t) for t in case['ts']], case['dt'],
                     [enc_ix(i) for i in case['index']]]]
     bases = part_bases(case['parts'])
-    return [52, [[[p['shape'], [enc_ix(i) for i in p['keep']], b, part_dt(case, p)] for p, b in zip(case['parts'], bases)],
+    return [54, [[[p['shape'], [enc_ix(i) for i in p['keep']], b, part_dt(case, p)] for p, b in zip(case['parts'], bases)],
                  [enc_tr(t) for t in case['ts']], case['dt'], [enc_ix(i) for i in case['index']]]]
 
 # ----------------------------------------------------------------------------- classification
@@ -509,7 +650,9 @@ def stage1_exists(case):
             np_oindex(labels(case['shape'], 0, 0), case['keep'], keepdims=True)
         else:
             for p in case['parts']:
-                np_oindex(labels(p['shape'], 0, 0), p['keep'], keepdims=True)
+                # a part's result includes its own chain (a dropped axis of length 0 has no element 0)
+                np_transforms([tuple(t) for t in p.get('ts', []) if t[0] != 'map'],
+                              np_oindex(labels(p['shape'], 0, 0), p['keep'], keepdims=True), None)
         return True
     except Exception:
         return False
@@ -552,6 +695,40 @@ def dtype_cause(case, symptom):
     return None
 
 
+def concat_empty_class(case):
+    """names the two open findings about EMPTY selections of the concatenated indexer precisely, so that they do not
+    hide other failures on empty selections:
+      tail(empty)        F10b: slice / mask head and a tail axis on which nothing is selected (reshape(-1, 0))
+      head_slice(empty)  F10:  forward head slice selecting nothing whose start lies in a LATER indexer than its stop
+    anything else on an empty selection gets its own cause"""
+    init = first_stage_shape(case)
+    if init is None:
+        return None
+    index = list(case['index'])[:len(init)]
+    index += [('s', None, None, None)] * (len(init) - len(index))
+    head, tails = index[0], index[1:]
+    try:
+        tail_lens = [len(np_resolve(n, ix)[0]) for n, ix in zip(init[1:], tails) if ix[0] != 'i']
+    except Exception:
+        return None
+    if 0 in tail_lens:
+        return 'tail(empty)' if head[0] in 'sm' else 'tail(empty,head=%s)' % head[0]
+    if head[0] == 's' and (head[3] or 1) > 0:
+        start, stop, step = slice(head[1], head[2], head[3]).indices(init[0])
+        if len(range(start, stop, step)) == 0:
+            lens = []
+            for p in case['parts']:
+                try:
+                    lens.append(len(np_resolve(p['shape'][0], p['keep'][0])[0]) if p['keep'] else p['shape'][0])
+                except Exception:
+                    return None
+            lens = [n for n in lens if n] or lens[:1]
+            starts = np.cumsum([0] + lens[:-1])
+            ia, ib = starts.searchsorted(start, side='right') - 1, starts.searchsorted(stop, side='right') - 1
+            return 'head_slice(empty)' if ia > ib else 'head_slice(empty,forward)'
+    return None
+
+
 def cause_of(case, symptom, spec):
     f = features(case)
     for x in f:
@@ -563,15 +740,19 @@ def cause_of(case, symptom, spec):
         return 'slice(step<0)'
     if 'stage1_int(neg)' in f:
         return 'stage1_int(neg)'
+    kt = 'keep_transform(%s)' % ','.join(t[0] for t in case['ts'] if t[0] in KEEP_AWARE) \
+        if any(t[0] in KEEP_AWARE for t in case['ts']) else None
+    if kt and symptom in ('wrong_data', 'wrong_shape'):
+        return kt
     dc = dtype_cause(case, symptom)
     if dc and not (symptom == 'raises' and spec[0] == 'ok' and 0 in spec[2]):
         return dc
     if case['kind'] == 'concat' and symptom == 'raises' and spec[0] == 'ok':
-        if 0 in spec[2][1:] or (case['index'] and case['index'][0][0] != 'i' and 0 in spec[2]
-                                and len(spec[2]) > 1 and 0 in spec[2][1:]):
-            return 'tail(empty)'
-        if 'head_slice' in f and spec[2] and spec[2][0] == 0:
-            return 'head_slice(empty)'
+        ec = concat_empty_class(case)
+        if ec:
+            return ec
+    if kt and symptom == 'raises':
+        return kt
     kinds = ','.join(ix[0] for ix in case['index'])
     return 'plain(%s)' % kinds
 
@@ -599,8 +780,33 @@ def nowidth(x):
     return x[:1] + [100] + x[2:] if len(x) > 1 and x[0] == 'ok' and x[1] > 100 else x
 
 
+def chain_invalid(case):
+    """documented restriction on a transform chain: it may only add or drop dimensions at the END of the first-stage
+    shape and must keep at least the first dimension; True when the chain of the case violates it (then
+    InvalidTransform at construction is the documented answer), None when the first stage does not exist"""
+    init = case.get('init') or first_stage_shape(case)
+    if init is None:
+        return None
+    new = list(init)
+    for t in case['ts']:
+        if t[0] == 'drop':
+            new = new[:-1]
+        elif t[0] == 'add':
+            new = new + [1]
+    head = new[:len(init)]
+    return not (len(head) > 0 and head == list(init)[:len(head)])
+
+
+def part_chains(case):
+    return case['kind'] == 'concat' and any(p.get('ts') for p in case['parts'])
+
+
 def judge(ctx, case, impl, mo):
-    """mo = model output [model, spec, shape-prop, dtype-prop] (or None while searching without a model)"""
+    """mo = model output [model, spec, shape-prop, dtype-prop, len, wire_5 output] (or None while searching without a
+    model, and for parts with their own transform chains, which the model does not have)"""
+    if part_chains(case):
+        mo = None
+        ctx.count('concat_parts_with_own_chain')
     npo = run_numpy(case)
     sb = scalar_bytes(case)
     if sb:
@@ -620,8 +826,9 @@ def judge(ctx, case, impl, mo):
     if not stage1_exists(case):
         # source[first stage] does not exist (numpy raises): nothing is promised; only the tie is checked
         spec = None
-    elif out == ['err', 'InvalidTransform:init']:
-        # a chain that drops every axis is documented as invalid: correct rejection (the tie checks the model agrees)
+    elif out == ['err', 'InvalidTransform:init'] and chain_invalid(case) is not False:
+        # a chain that drops every axis is documented as invalid: correct rejection (the tie checks the model agrees);
+        # a VALID chain rejected with InvalidTransform falls through to `init_raises` below
         spec = None
     elif case['kind'] == 'concat' and out == ['err', 'ConcatenationError:init'] and not dtypes_compatible(case):
         # dtypes that are neither all equal nor all byte strings: documented rejection (the tie checks the model agrees)
@@ -656,11 +863,36 @@ def judge(ctx, case, impl, mo):
             if impl['shape'] != mshape or impl['dtype'] != mo[3]:
                 ctx.disagree('what=tie;shape_dtype_property', case, [impl['shape'], impl['dtype']], [mshape, mo[3]],
                              'model shape/dtype properties differ from implementation', kind='tie')
-    # shape / dtype properties equal those of self[:]
+            if impl.get('len') != mo[4]:
+                ctx.disagree('what=tie;len', case, impl.get('len'), mo[4], 'model len() differs from implementation',
+                             kind='tie')
+        if len(mo) > 5 and mo[5] is not None:
+            # LazyIndexer without keep-aware transforms: wire_5 = [N-d loop, spec, shape, dtype, outer product, len]
+            o5 = mo[5]
+            nd5, outer = canon_model(o5[0]), canon_model(o5[4])
+            if sb:
+                nd5, outer = nowidth(nd5), nowidth(outer)
+            if outer != model or nd5 != model:
+                ctx.disagree('what=tie;nd_loop_vs_outer_product;' + signature(case, 'model_differs', spec), case, model,
+                             [nd5, outer], 'the N-d chunk loop of the model, the outer product of its per-axis gathers and '
+                             'the keep-aware layer disagree', kind='tie')
+    # shape / dtype properties (and len()) equal those of self[:]
     if 'shape' in impl and impl.get('full', ['err'])[0] == 'ok':
         if impl['full'][2] != impl['shape'] or impl['full'][1] != impl['dtype']:
             ctx.disagree('indexer=%s;what=shape_dtype_vs_full' % case['kind'], case, [impl['shape'], impl['dtype']],
                          impl['full'][1:3], 'shape/dtype properties differ from those of self[:]')
+        if impl['full'][2] and impl.get('len') != impl['full'][2][0]:
+            ctx.disagree('indexer=%s;what=len_vs_full' % case['kind'], case, impl.get('len'), impl['full'][2][0],
+                         'len() differs from the length of self[:]')
+    # history: repeating the request after other requests, and the properties afterwards
+    if 'again' in impl:
+        again = nowidth(impl['again']) if sb else impl['again']
+        if again != out and not (again[0] == 'err' and out[0] == 'err'):
+            ctx.disagree('indexer=%s;what=history;symptom=second_answer_differs' % case['kind'], case, again, out,
+                         'the same request answered differently after other requests on the same indexer')
+        if 'shape' in impl and impl.get('props_after') != [impl['shape'], impl['dtype'], impl.get('len')]:
+            ctx.disagree('indexer=%s;what=history;symptom=properties_moved' % case['kind'], case, impl.get('props_after'),
+                         [impl['shape'], impl['dtype'], impl.get('len')], 'shape / dtype / len changed after indexing')
     ctx.traces_validated += 1
     nontriv = (out[0] == 'ok' and len(out[3]) > 0 and any(ix != ('s', None, None, None) for ix in case['index'])) \
         or (not indom)
@@ -673,6 +905,16 @@ def judge(ctx, case, impl, mo):
         ctx.count('stage2=' + ix[0])
     if case['ts']:
         ctx.count('with_transforms')
+        ctx.count('chain_len=%d' % len(case['ts']))
+        ctx.count('dtype_declaring=%d' % sum(1 for t in case['ts'] if t[0] == 'map' and t[3] is not None))
+    for t in case['ts']:
+        if t[0] in KEEP_AWARE:
+            ctx.count('keep_aware=' + t[0])
+    for flag in ('bare', 'npint', 'arr_index'):
+        if case.get(flag):
+            ctx.count('api=' + flag)
+    if case['kind'] == 'concat' and any(p.get('raw') for p in case['parts']):
+        ctx.count('api=raw_array_part')
     if case['kind'] == 'concat':
         dts = used_dtypes(case)
         ctx.count('concat_dtypes=' + ('common' if len(set(dts)) == 1 else
@@ -684,6 +926,12 @@ def judge(ctx, case, impl, mo):
 def run_cases(ctx, cases, pool):
     warnings.simplefilter('ignore', np.exceptions.ComplexWarning)
     mouts = ctx.model([wire_case(c) for c in cases]) if ctx.model_ok else [None] * len(cases)
+    if ctx.model_ok:
+        plain = [i for i, c in enumerate(cases) if c['kind'] == 'lazy' and not any(t[0] in KEEP_AWARE for t in c['ts'])]
+        o5 = ctx.model([[5, wire_case(cases[i])[1]] for i in plain])
+        mouts = [list(m) + [None] for m in mouts]
+        for i, o in zip(plain, o5):
+            mouts[i][5] = o
     for c, mo in zip(cases, mouts):
         impl = run_impl(c, pool)
         judge(ctx, c, impl, mo)
@@ -858,9 +1106,11 @@ def norm_case(c):
         c['keep'] = [ix(i) for i in c.get('keep', [])]
     else:
         c.setdefault('dt', 0)
-        c['parts'] = [dict(shape=p['shape'], keep=[ix(i) for i in p.get('keep', [])], dt=p.get('dt', c['dt']))
-                      for p in c['parts']]
+        c['parts'] = [dict(shape=p['shape'], keep=[ix(i) for i in p.get('keep', [])], dt=p.get('dt', c['dt']),
+                           raw=bool(p.get('raw')), ts=[tuple(t) for t in p.get('ts', [])]) for p in c['parts']]
     c.setdefault('dt', 0)
+    if any(t[0] in KEEP_AWARE for t in c['ts']) and 'init' not in c:
+        c = finish_case(c)
     return c
 
 
@@ -879,7 +1129,7 @@ def run(ctx):
         sweep = dtype_sweep()
         run_cases(ctx, sweep, pool)
         ctx.extra['dtype_sweep_cases'] = len(sweep)
-        n = ctx.scale(4000, 60000)
+        n = ctx.scale(7000, 60000)
         if ctx.searching:
             n = ctx.scale(20000, 60000)
         rng = ctx.rng
